@@ -13,12 +13,14 @@ for f in os.listdir(src):
 conf = subprocess.run(["/verif/seedconfirm.sh", ID, V], capture_output=True, text=True).stdout.strip().splitlines()
 chk = subprocess.run(["/verif/seedcheck.sh", os.path.join(dst, "patch.diff")], capture_output=True, text=True).stdout
 by = {}
-cur = None
 for line in chk.splitlines():
     if line.startswith("== "):
-        cur = line.split()[1]; by[cur] = []
-    elif cur and (line.startswith("VIOLATED") or line.startswith("UNDECIDED")):
-        by[cur].append(line.split()[1].replace("rule=", ""))
+        parts = line.split()
+        prop = parts[1]
+        rule = [x for x in parts if x.startswith("rule=")]
+        by.setdefault(prop, [])
+        if rule:
+            by[prop].append(rule[0].replace("rule=", ""))
 meta = {
  "property": ID, "variant": V, "origin": "independent sub-agent given only the property text and a scratch worktree",
  "needs_to_manifest": needs,
